@@ -47,7 +47,7 @@ void Exec::op_solve(Client &c) {
 	}
 	snapshot_others(o);
 	// interruption faults are public-API settings made for this call and undone afterwards
-	bool interrupted = false, faulted = false; int saved_iter = 0; bool iter_set = false, time_set = false;
+	bool interrupted = o->tiny_maxtime, faulted = false; int saved_iter = 0; bool iter_set = false, time_set = false;
 	QArr tq(2);
 	if (const Fault *f = op->fault("iter.limit")) { long nn = fi(*f, "n", 1); if (nn < 1) nn = 1; mpq_QSget_param(o->p, QS_PARAM_SIMPLEX_MAX_ITERATIONS, &saved_iter); if (!mpq_QSset_param(o->p, QS_PARAM_SIMPLEX_MAX_ITERATIONS, (int)nn)) { iter_set = true; interrupted = true; } }
 	if (const Fault *f = op->fault("clk.limit")) { mpq_QSget_param_EGlpNum(o->p, QS_PARAM_SIMPLEX_MAX_TIME, tq.ptr(1)); mpq_set_ui(tq.at(0), 500, 1); if (!mpq_QSset_param_EGlpNum(o->p, QS_PARAM_SIMPLEX_MAX_TIME, tq.at(0))) { time_set = true; interrupted = true; world.limit_at_read = fi(*f, "at", 0); world.jump = 1000.0; } }
